@@ -29,7 +29,7 @@ RULES = {
           "use of the response; read_tty is called with `timeout or _query_timeout`; set_query_timeout rejects <= 0 (every termios/tty call of query_terminal runs under `_queries_enabled`, and the value returned when disabled is None); shared with C15.R2: no hand-rolled module-global memo of terminal behaviour in utils.py",
     "R6": "bounded waiting: read_tty's timed loop continues only while (timeout < 0 or elapsed < timeout) and more(input); select() waits at most the "
           "remaining time (timeout - elapsed, or None only for a negative = infinite timeout); the elapsed time is recomputed after every wait; the "
-          "non-blocking mode (timeout None) polls with a zero select timeout; VMIN is reset to 0 after the blocking min-read",
+          "non-blocking mode (timeout None) polls with a zero select timeout; VMIN is reset to 0 after the blocking min-read; from each select() no path returns to the loop test without recomputing the elapsed time",
     "R5": "style selection: _styles lists every concrete BaseImage subclass once in the documented preference order (kitty, iterm2, block; "
           "text-based last); auto_image_class returns the first supported class, else the last; support rules use the documented names/versions; decided on the traced condition sets under which `cls._supported = True` is stored (kitty: OK reply to the graphics query and kitty >= 0.20.0 or konsole; iterm2: a truth table over terminal name x version new enough x version parse failed); the terminal name is lower-cased on every return path of get_terminal_name_version; the dotted-integer version parse runs only for konsole; every read of the environment in the value returned by get_terminal_name_version is selected under the negation of the XTVERSION match (the environment is only the fallback)",
 }
@@ -540,5 +540,6 @@ MUTANTS = [
     M("name-not-lowered", U, "get_terminal_name_version", "return (name and name.lower(), version)", "return (name, version)", {"R5"}),
     M("env-before-reply", U, "get_terminal_name_version", "    match = response and ctlseqs.XTVERSION_re.match(response.decode())\n", "    match = response and ctlseqs.XTVERSION_re.match(response.decode())\n    if os.environ.get(\"TERM_PROGRAM\"):\n        return (os.environ[\"TERM_PROGRAM\"].lower(), os.environ.get(\"TERM_PROGRAM_VERSION\"))\n", {"R5"}),
     M("memo-key-names-only", U, "cached", "arguments = (args, tuple(kwargs.items()))", "arguments = (args, tuple(sorted(kwargs)))", {"MEMO"}),
+    M("continue-skips-clock", U, "read_tty", "                if select(r, w, x, None if timeout < 0 else timeout - duration)[0]:\n                    input.extend(os.read(_tty_fd, 1))\n", "                if not select(r, w, x, None if timeout < 0 else timeout - duration)[0]:\n                    continue\n                input.extend(os.read(_tty_fd, 1))\n", {"R6"}),
     M("twin-lambda-arg", U, "get_cell_size", "more=lambda s: not s.endswith(b\"c\"),", "more=lambda buf: not buf.endswith(b\"c\"),", twin=True),
 ]
